@@ -270,8 +270,10 @@ struct SinkInfo
   std::shared_ptr<RecSink> user_ref;  // the harness' ("user") reference; reset by DropSinkRef
   RecSink* raw{nullptr};
   std::string name;
-  int level_filter{0};
+  int level_filter{0};                 // level filter set at creation
   std::vector<uint32_t> filter_salts;
+  std::vector<size_t> filter_from;     // op counter at which the filter was added (0 = at creation): later statements only
+  std::vector<std::pair<size_t, int>> level_hist; // (op counter, level): set_log_level_filter at a drained point
   bool has_override{false};
   bool destroyed{false};
 };
@@ -288,6 +290,7 @@ struct World
   std::deque<SinkInfo> sinks;              // sink INSTANCES (a name from the pool can be re-created after the previous instance died)
   std::map<std::string, int> sink_by_name; // name -> most recent instance
   std::deque<Stmt> stmts;
+  bool lbl_filter_added_late{false}, lbl_sink_level_changed{false};
   std::deque<FlushRec> flushes;
   std::vector<JEntry> journal;
   std::vector<std::string> notes; // error notifier
